@@ -25,6 +25,10 @@ pub struct Inner {
     /// Run the delete/gc with the other value of `break_lock` than the case's.
     #[serde(default)]
     pub flip_break_lock: bool,
+    /// The head the backup writes is re-dated this many days into the past right after it is
+    /// written (a backup that has been running for that long when the collector starts).
+    #[serde(default)]
+    pub head_age_days: u16,
 }
 
 #[derive(Debug, Clone, Serialize, Deserialize)]
@@ -247,7 +251,7 @@ fn run(case: &Case, cx: &mut Cx) -> CaseResult {
     let crit = [scen::thin(&g_crit, cx.tier.pick(6, 10)), scen::thin(&b_crit, cx.tier.pick(6, 10))];
     let mut schedules = race::enumerate_keyed(&all, &crit);
     schedules.extend(case.random.iter().map(|r| Schedule(r.clone())));
-    let mut runs: Vec<Inner> = schedules.into_iter().map(|sch| Inner { sch, faults: vec![], flip_break_lock: false }).collect();
+    let mut runs: Vec<Inner> = schedules.into_iter().map(|sch| Inner { sch, faults: vec![], flip_break_lock: false, head_age_days: 0 }).collect();
     // One transient storage error in the collector while the backup is under way (the
     // collector starts after the backup has performed p operations and then runs through),
     // and one in the backup's own look at the lock / the version list while the collector
@@ -270,6 +274,7 @@ fn run(case: &Case, cx: &mut Cx) -> CaseResult {
                         sch: Schedule(vec![(1, *p), (0, u16::MAX)]),
                         faults: vec![RaceFault { actor: 0, verb: None, prefix: String::new(), nth, kind, freeze_torn: false }],
                         flip_break_lock: false,
+                        head_age_days: 0,
                     });
                 }
             }
@@ -287,6 +292,7 @@ fn run(case: &Case, cx: &mut Cx) -> CaseResult {
                         sch: Schedule(vec![(0, p), (1, u16::MAX)]),
                         faults: vec![RaceFault { actor: 1, verb: None, prefix: String::new(), nth, kind, freeze_torn: false }],
                         flip_break_lock: false,
+                        head_age_days: 0,
                     });
                 }
             }
@@ -304,6 +310,7 @@ fn run(case: &Case, cx: &mut Cx) -> CaseResult {
                             sch: Schedule(vec![(1, *p1), (0, p2), (1, u16::MAX), (0, u16::MAX)]),
                             faults: vec![RaceFault { actor: 1, verb: None, prefix: String::new(), nth, kind, freeze_torn: false }],
                             flip_break_lock: false,
+                            head_age_days: 0,
                         });
                     }
                 }
@@ -316,6 +323,7 @@ fn run(case: &Case, cx: &mut Cx) -> CaseResult {
                         sch: Schedule(vec![(0, *p), (1, u16::MAX)]),
                         faults: vec![RaceFault { actor: 1, verb: Some(verb), prefix: prefix.to_string(), nth, kind, freeze_torn: false }],
                         flip_break_lock: false,
+                        head_age_days: 0,
                     });
                 }
             }
@@ -324,15 +332,23 @@ fn run(case: &Case, cx: &mut Cx) -> CaseResult {
     // The other value of break_lock, over the schedules in which one actor starts while the
     // other is paused at one of its critical points.
     for p in scen::thin(&crit[1], cx.tier.pick(8, 10)) {
-        runs.push(Inner { sch: Schedule(vec![(1, p), (0, u16::MAX)]), faults: vec![], flip_break_lock: true });
+        runs.push(Inner { sch: Schedule(vec![(1, p), (0, u16::MAX)]), faults: vec![], flip_break_lock: true, head_age_days: 0 });
     }
     for p in scen::thin(&crit[0], cx.tier.pick(8, 10)) {
-        runs.push(Inner { sch: Schedule(vec![(0, p), (1, u16::MAX)]), faults: vec![], flip_break_lock: true });
+        runs.push(Inner { sch: Schedule(vec![(0, p), (1, u16::MAX)]), faults: vec![], flip_break_lock: true, head_age_days: 0 });
+    }
+    // A backup that has been under way for eight days, or for four hundred, when the
+    // collector starts: it pauses at one of its critical points (its head, written by then,
+    // is re-dated), the collector runs through, the backup finishes.
+    for days in [8u16, 400] {
+        for p in scen::thin(&crit[1], cx.tier.pick(6, 10)) {
+            runs.push(Inner { sch: Schedule(vec![(1, p), (0, u16::MAX)]), faults: vec![], flip_break_lock: false, head_age_days: days });
+        }
     }
     let only: Option<Inner> = cx.only_inner.as_ref().and_then(|v| {
         serde_json::from_value::<Inner>(v.clone())
             .ok()
-            .or_else(|| serde_json::from_value::<Schedule>(v.clone()).ok().map(|sch| Inner { sch, faults: vec![], flip_break_lock: false }))
+            .or_else(|| serde_json::from_value::<Schedule>(v.clone()).ok().map(|sch| Inner { sch, faults: vec![], flip_break_lock: false, head_age_days: 0 }))
     });
     let mut evals = 0u64;
     let mut nontrivial = 0u64;
@@ -352,6 +368,7 @@ fn run(case: &Case, cx: &mut Cx) -> CaseResult {
         let ids = delete_ids.clone();
         let bo = case.backup_opts;
         let break_lock = break_lock != inner.flip_break_lock;
+        crate::hooks::set_head_age(inner.head_age_days as i64 * 86_400);
         let out = race::run_with_faults(
             &w.arch,
             vec![
@@ -361,6 +378,7 @@ fn run(case: &Case, cx: &mut Cx) -> CaseResult {
             sch,
             inner.faults.clone(),
         );
+        crate::hooks::set_head_age(0);
         evals += 1;
         // non-trivial: each actor runs at least one operation between the other's lock check
         // and its first mutation of blocks/bands
